@@ -699,7 +699,29 @@ def r12(ctx):
                '; '.join(bad) or 'accepts exactly min..max for %d ranges x 256 values' % len(ranges))
 
 
+def r14(ctx):
+    ctx.rule('C07.R14', 'not-a-number and infinity never pass the range check: in NumberDataType::checkValueRange every return that is '
+             'reached with the decoded float known to be not finite (the false side of isfinite()) returns a result other than '
+             'RESULT_OK - parseInput and getRawValueFromFloat rely on that result, nothing else stops "nan" from being written '
+             'as the replacement pattern', minimum=1)
+    fb = ctx.fb
+    fn = fb.fn('ebusd::NumberDataType::checkValueRange')
+    ctx.touch(fn)
+    n = 0
+    for r in fn.all('ReturnStmt'):
+        atoms = [(a[0], a[1]) for a in fn.atoms(r)]
+        if not any('isfinite(' in k and not p_ for k, p_ in atoms):
+            continue
+        n += 1
+        v = fn.val(fn.nodes[r].get('val'))
+        ok = v is not None and v != 0
+        ctx.ob('C07.R14', fn, r, ok, 'return for a value that is not finite', 'an error result: %s (%s)' % (ok, fn.key(fn.nodes[r]['val'])))
+    if n < 1:
+        raise AnalysisBroken('C07.R14: no return under !isfinite() found in checkValueRange')
+
+
 def run(ctx):
+    r14(ctx)
     import rules.common as _cmp
     ctx.rule('C07.R13', 'a parsed integer is scaled only after it was bounded: in the data type and field sources the 64 bit result of strtol / strtoul is never multiplied or shifted in integer arithmetic unless constants bound it on the way (the number types scale in double, which cannot wrap) - the unchecked product of a 17 to 19 digit text with the divisor wraps around and lands inside the range of the field, so that an absurd input is written as a small value (checked against a positive example on every run)', minimum=2)
     _cmp.parsed_scale_rule(ctx, 'C07.R13', lambda f: f.relfile.startswith(('src/lib/ebus/datatype.', 'src/lib/ebus/data.')), 2)
